@@ -13,3 +13,9 @@ pub use server::{RenetServer, ServerEvent};
 pub use bytes::Bytes;
 
 pub type ClientId = u64;
+
+/// Verification hooks: re-exports of the wire types for the correspondence harness.
+#[cfg(feature = "verif")]
+pub mod verif {
+    pub use crate::packet::{Packet, SerializationError, Slice, SLICE_SIZE};
+}
